@@ -92,6 +92,11 @@ def build_modules(cases, workdir):
             jid = "%s|%s" % (f, tag)
             jobs.append({"id": jid, "schema_path": sp, "query": docs["plain"], "options": OPTS, "want_tokens": True})
             meta[jid] = (t, f, tag, docs["plain"])
+        # ... and under skip_serializing_none (the ID attributes share the field with its serde attributes)
+        for tag, q in (("plains", docs["plain"]), ("frags", docs["frag"])):
+            jid = "%s|%s" % (f, tag)
+            jobs.append({"id": jid, "schema_path": spath, "query": q, "options": dict(OPTS, skip_serializing_none=True), "want_tokens": True})
+            meta[jid] = (t, f, tag, q)
     return jobs, meta, names, spath
 
 
@@ -141,7 +146,7 @@ def part_b(ck, tier, selftest=False):
     # sibling members must not coerce: String <- 1 and Int <- "1" are rejected (checked once per module)
     vjobs, vmeta = [], {}
     for ci, c in enumerate(cases):
-        for pos in ("plain", "frag", "variant", "plainb", "plainj"):
+        for pos in ("plain", "frag", "variant", "plainb", "plainj", "plains", "frags"):
             cid = cid_of.get((c["text"], pos))
             if not cid or cid in errs:
                 continue
